@@ -30,9 +30,14 @@ from sim.shrink import shrink  # noqa: E402
 
 DEFAULT_SEED = 20260926
 QUICK_RUNS = {
-    "C01": 6000,
-    "C12": 5000,
-    "C13": 5000,
+    "C01": 40000,
+    "C12": 30000,
+    "C13": 30000,
+    "C02": 30000,
+    "C03": 30000,
+    "C04": 30000,
+    "C18": 30000,
+    "C19": 30000,
 }
 THOROUGH_BATCH = 24000
 MAX_REPORT = 4
@@ -65,6 +70,15 @@ def slug(s: str) -> str:
 def replay_file(path: str, prop: str, quiet: bool = False) -> int:
     with open(path) as f:
         rec = json.load(f)
+    if rec.get("static"):
+        w = runner.world(prop)
+        hits = [x for x in w.static_checks(prop) if x["rule"] == rec["rule"] and x["key"] == rec["key"]]
+        print("DIGEST static")
+        if hits:
+            print(f"VIOLATION property={prop} replay={path}")
+            return 1
+        print("NOT-REPRODUCED")
+        return 0
     plan = rec["plan"]
     res = runner.execute(plan, want_digest=True)
     rel = runner.relevant(res["violations"], prop)
@@ -185,6 +199,12 @@ def main() -> int:
     assert merged is not None
     wall_runs = time.time() - t0
 
+    # ---------------------------------------------------------------- schedule-free table
+    w = runner.world(prop)
+    static_viol = w.static_checks(prop) if hasattr(w, "static_checks") else []
+    merged["static_checked"] = hasattr(w, "static_checks")
+    merged["static_violations"] = static_viol
+
     # ---------------------------------------------------------------- harness errors
     if merged["errors"]:
         e = merged["errors"][0]
@@ -255,6 +275,16 @@ def main() -> int:
         reported += 1
         exit_code = 1
 
+    for sv in static_viol:
+        os.makedirs(os.path.join(HERE, "replays", prop), exist_ok=True)
+        path = os.path.join(HERE, "replays", prop, f"{slug(sv['rule'])}-{slug(sv['key'])}-static.json")
+        with open(path, "w") as f:
+            json.dump({"property": prop, "static": True, **sv}, f, indent=1)
+        print(f"  {sv['rule']} [{sv['key']}] (schedule-free table): {sv['msg']}")
+        print(f"VIOLATION property={prop} replay={path}")
+        exit_code = 1
+        reported += 1
+
     for kf in known_hit.values():
         print(f"KNOWN-FINDING: property={prop} {kf['what']}")
 
@@ -315,6 +345,11 @@ def write_evidence(prop, tier, seed, merged, total_runs, wall, nviol, known_hit,
             "seeded": ["trio run-queue batch order", "workload pauses and fault injection steps"],
         },
         "harness_error": harness_error,
+        "schedule_free_table": {
+            "checked": merged.get("static_checked", False),
+            "violations": merged.get("static_violations", []),
+            "note": "decoration-time rejection table (C19 only); pure, not counted as simulated coverage",
+        },
     }
     ev = {
         "property_id": prop,
